@@ -521,6 +521,10 @@ fn fuse_stateless_tracked(chain: Vec<Node>) -> (Vec<Node>, Option<OptimizationDe
 
 /// Reorder value-only operations and track optimization decisions.
 fn reorder_value_only_runs_tracked(chain: Vec<Node>) -> (Vec<Node>, Vec<OptimizationDecision>) {
+    #[cfg(feature = "verif-hooks")]
+    if crate::verif_hooks::skip_reorder() {
+        return (chain, Vec::new());
+    }
     let mut out = Vec::with_capacity(chain.len());
     let mut optimizations = Vec::new();
 
@@ -660,4 +664,43 @@ fn suggest_partitions(len_hint: Option<usize>) -> Option<usize> {
     let hw = num_cpus::get().max(2);
     parts = parts.clamp(hw, hw * 8);
     Some(parts)
+}
+
+/// Read-only access to the private optimizer passes for the verification harness.
+#[cfg(feature = "verif-hooks")]
+pub mod verif {
+    use super::{
+        Node, backwalk_linear, drop_mid_materialized_tracked, fuse_stateless_tracked,
+        lift_gbk_then_combine_tracked, reorder_value_only_runs_tracked,
+    };
+    use crate::{NodeId, Pipeline};
+
+    /// The literal (unoptimized) chain ending at `terminal`.
+    ///
+    /// # Errors
+    /// If a referenced node is missing from the snapshot.
+    pub fn backwalk(p: &Pipeline, terminal: NodeId) -> anyhow::Result<Vec<Node>> {
+        let (nodes, edges) = p.snapshot();
+        backwalk_linear(nodes, &edges, terminal)
+    }
+    /// Pass 1.
+    #[must_use]
+    pub fn fuse(chain: Vec<Node>) -> Vec<Node> {
+        fuse_stateless_tracked(chain).0
+    }
+    /// Pass 2.
+    #[must_use]
+    pub fn reorder(chain: Vec<Node>) -> Vec<Node> {
+        reorder_value_only_runs_tracked(chain).0
+    }
+    /// Pass 3.
+    #[must_use]
+    pub fn lift(chain: Vec<Node>) -> Vec<Node> {
+        lift_gbk_then_combine_tracked(chain).0
+    }
+    /// Pass 4.
+    #[must_use]
+    pub fn drop_mid(chain: Vec<Node>) -> Vec<Node> {
+        drop_mid_materialized_tracked(chain).0
+    }
 }
